@@ -26,10 +26,49 @@ Proof. intros I Ec. cbn in *. split; [discriminate|reflexivity]. Qed.
 Lemma inv_close T b c : Inv T (close b c).
 Proof. intros H. discriminate H. Qed.
 
-Lemma inv_requests T R a c : Inv T c -> Inv T (requests R a c).
+Lemma inv_set_resp T b w c : Inv T c -> Inv T (set_resp b w c).
+Proof. intros I. exact I. Qed.
+Lemma inv_dispatch T R a c : Inv T c -> Inv T (dispatch R a c).
 Proof.
-  intros I. unfold requests. destruct (responding c); [exact I|].
-  destruct a; auto using inv_persist, inv_respond, inv_set_pend.
+  intros I. unfold dispatch. destruct (responding c); [exact I|].
+  destruct a; auto using inv_persist, inv_respond, inv_set_pend, inv_set_resp.
+Qed.
+Lemma inv_reps T R c : Inv T c -> Inv T (reps R c).
+Proof.
+  intros I. unfold reps. destruct (inprog c); [|exact I].
+  destruct (wait c =? 0)%N; auto using inv_set_pend, inv_set_resp.
+Qed.
+Lemma inv_requests T R a c : Inv T c -> Inv T (requests R a c).
+Proof. intros I. apply inv_reps, inv_dispatch, I. Qed.
+
+(* serviceReqs/serviceReps touch neither the tymer, the tymeout (except zeroing it), nor the closed flags *)
+Lemma reps_fields R c :
+  st (reps R c) = st c /\ sp (reps R c) = sp c /\ tmo (reps R c) = tmo c /\ closed (reps R c) = closed c /\
+  timedout (reps R c) = timedout c /\ persisted (reps R c) = persisted c /\ last (reps R c) = last c /\
+  responding (reps R c) = responding c.
+Proof. unfold reps. destruct (inprog c); [destruct (wait c =? 0)%N|]; cbn; repeat split. Qed.
+Lemma dispatch_fields R a c :
+  closed (dispatch R a c) = closed c /\ timedout (dispatch R a c) = timedout c /\
+  last (dispatch R a c) = last c /\ (tmo c <= 0 -> tmo (dispatch R a c) <= 0) /\
+  (is_req a = false -> persisted (dispatch R a c) = persisted c).
+Proof.
+  unfold dispatch. destruct (responding c); [repeat split; auto|].
+  destruct a; cbn; repeat split; auto; try lia; discriminate.
+Qed.
+Lemma requests_timedout R a c : timedout (requests R a c) = timedout c.
+Proof.
+  unfold requests. destruct (reps_fields R (dispatch R a c)) as (_ & _ & _ & _ & H & _). rewrite H.
+  apply (dispatch_fields R a c).
+Qed.
+Lemma requests_tmo_le R a c : tmo c <= 0 -> tmo (requests R a c) <= 0.
+Proof.
+  intros Hc. unfold requests. destruct (reps_fields R (dispatch R a c)) as (_ & _ & H & _). rewrite H.
+  now apply (dispatch_fields R a c).
+Qed.
+Lemma requests_persisted R a c : is_req a = false -> persisted (requests R a c) = persisted c.
+Proof.
+  intros Ha. unfold requests. destruct (reps_fields R (dispatch R a c)) as (_ & _ & _ & _ & _ & H & _). rewrite H.
+  now apply (dispatch_fields R a c).
 Qed.
 Lemma inv_sends T now cap c : Inv T c -> Inv T (sends now cap c).
 Proof.
@@ -44,7 +83,7 @@ Proof.
   destruct ((0 <? tmo c) && expired now c); [apply inv_close|].
   set (c1 := if has_traffic a then refresh now c else c).
   assert (I1 : Inv T c1) by (unfold c1; destruct (has_traffic a); [now apply inv_refresh|exact I]).
-  destruct (responding (requests R a c1) && (pend (requests R a c1) =? 0)%N); [apply inv_close|].
+  destruct (responding (requests R a c1) && negb (inprog (requests R a c1)) && (pend (requests R a c1) =? 0)%N); [apply inv_close|].
   apply inv_sends, inv_requests, I1.
 Qed.
 
@@ -63,12 +102,28 @@ Lemma run_app R s1 : forall s2 c, run R c (s1 ++ s2) = run R (run R c s1) s2.
 Proof. induction s1 as [|p s1 IH]; intros s2 c; simpl; [reflexivity|apply IH]. Qed.
 
 (* requests does not look at the tymer *)
+Lemma requests_refresh R a now c :
+  pend (requests R a (refresh now c)) = pend (requests R a c) /\
+  responding (requests R a (refresh now c)) = responding (requests R a c) /\
+  inprog (requests R a (refresh now c)) = inprog (requests R a c).
+Proof.
+  unfold requests, dispatch. cbn [refresh responding].
+  destruct (responding c) eqn:E.
+  - unfold reps. cbn [refresh inprog wait pend]. destruct (inprog c); [destruct (wait c =? 0)%N|]; cbn; rewrite ?E; auto.
+  - destruct a; unfold reps; cbn;
+      repeat match goal with |- context [if ?b then _ else _] => destruct b; cbn end; rewrite ?E; auto.
+Qed.
 Lemma requests_refresh_pend R a now c : pend (requests R a (refresh now c)) = pend (requests R a c).
-Proof. unfold requests. cbn. destruct (responding c); [reflexivity|]. destruct a; reflexivity. Qed.
+Proof. apply requests_refresh. Qed.
 Lemma requests_refresh_resp R a now c : responding (requests R a (refresh now c)) = responding (requests R a c).
-Proof. unfold requests. cbn [refresh responding]. destruct (responding c) eqn:E; [cbn; rewrite E; reflexivity|]. destruct a; cbn; rewrite ?E; reflexivity. Qed.
+Proof. apply requests_refresh. Qed.
+Lemma requests_refresh_inprog R a now c : inprog (requests R a (refresh now c)) = inprog (requests R a c).
+Proof. apply requests_refresh. Qed.
 Lemma requests_last R a c : last (requests R a c) = last c.
-Proof. unfold requests. destruct (responding c); [reflexivity|]. destruct a; reflexivity. Qed.
+Proof.
+  unfold requests. destruct (reps_fields R (dispatch R a c)) as (_ & _ & _ & _ & _ & _ & H & _). rewrite H.
+  apply (dispatch_fields R a c).
+Qed.
 
 (* the ghost [last] is the tyme of the latest pass in which bytes actually moved *)
 Lemma last_pass_open R p c :
@@ -80,14 +135,15 @@ Proof.
   destruct (is_wind a) eqn:Ew; [intros _; reflexivity|]. cbn [negb andb]. rewrite orb_false_r.
   destruct ((0 <? tmo c) && expired now c); [intros H; discriminate H|].
   destruct (has_traffic a) eqn:Ht; cbn [orb].
-  - rewrite requests_refresh_pend, requests_refresh_resp.
+  - rewrite requests_refresh_pend, requests_refresh_resp, requests_refresh_inprog.
     set (c2 := requests R a (refresh now c)).
     assert (Hl : last c2 = now) by (unfold c2; now rewrite requests_last).
-    destruct (responding (requests R a c) && (pend (requests R a c) =? 0)%N); [intros H; discriminate H|].
+    destruct (responding (requests R a c) && negb (inprog (requests R a c)) && (pend (requests R a c) =? 0)%N);
+      [intros H; discriminate H|].
     intros _. unfold sends. destruct (0 <? N.min cap (pend c2))%N; [reflexivity|exact Hl].
   - set (c2 := requests R a c).
     assert (Hl : last c2 = last c) by (unfold c2; now rewrite requests_last).
-    destruct (responding c2 && (pend c2 =? 0)%N) eqn:Ed; [intros H; discriminate H|].
+    destruct (responding c2 && negb (inprog c2) && (pend c2 =? 0)%N) eqn:Ed; [intros H; discriminate H|].
     intros _. unfold sends. rewrite andb_true_r.
     destruct (0 <? pend c2)%N eqn:Ep, (0 <? cap)%N eqn:Ecap; cbn [andb].
     + replace (0 <? N.min cap (pend c2))%N with true by lia. reflexivity.
@@ -102,29 +158,17 @@ Proof.
   destruct p as [[now a] cap]. unfold blocked, moved. destruct a; try discriminate.
   intros H. apply N.eqb_eq in H. subst cap. cbn. now rewrite andb_false_r.
 Qed.
-Lemma pend_blocked R p c :
-  blocked p = true -> closed (pass R p c) = false -> pend (pass R p c) = pend c.
-Proof.
-  destruct p as [[now a] cap]. unfold blocked. destruct a; try discriminate.
-  intros H. apply N.eqb_eq in H. subst cap. unfold pass. cbn [has_traffic is_wind].
-  destruct (closed c); [reflexivity|].
-  destruct ((0 <? tmo c) && expired now c); [intros H; discriminate H|].
-  unfold requests. replace (if responding c then c else c) with c by (destruct (responding c); reflexivity).
-  destruct (responding c && (pend c =? 0)%N); [intros H; discriminate H|].
-  intros _. unfold sends. replace (N.min 0 (pend c)) with 0%N by lia. reflexivity.
-Qed.
 Lemma blocked_run R quiet : forall c,
   forallb blocked quiet = true -> closed (run R c quiet) = false ->
-  last (run R c quiet) = last c /\ pend (run R c quiet) = pend c.
+  last (run R c quiet) = last c.
 Proof.
-  induction quiet as [|p r IH]; intros c Hb Ho; simpl in *; [auto|].
+  induction quiet as [|p r IH]; intros c Hb Ho; simpl in *; [reflexivity|].
   apply andb_true_iff in Hb as [Hp Hr].
   assert (Eo : closed (pass R p c) = false).
   { destruct (closed (pass R p c)) eqn:E; [|reflexivity]. rewrite closed_run in Ho by exact E. congruence. }
-  destruct (IH _ Hr Ho) as [H1 H2]. rewrite H1, H2. split.
-  - rewrite last_pass_open by exact Eo. rewrite moved_blocked by exact Hp.
-    destruct p as [[now a] cap]. destruct a; try discriminate Hp. reflexivity.
-  - now apply pend_blocked.
+  rewrite (IH _ Hr Ho).
+  rewrite last_pass_open by exact Eo. rewrite moved_blocked by exact Hp.
+  destruct p as [[now a] cap]. destruct a; try discriminate Hp. reflexivity.
 Qed.
 
 Lemma persisted_pass R p c : is_req (snd (fst p)) = false -> persisted (pass R p c) = persisted c.
@@ -134,9 +178,8 @@ Proof.
   destruct ((0 <? tmo c) && expired now c); [reflexivity|].
   set (c1 := if has_traffic a then refresh now c else c).
   assert (H1 : persisted c1 = persisted c) by (unfold c1; destruct (has_traffic a); reflexivity).
-  assert (H2 : persisted (requests R a c1) = persisted c).
-  { unfold requests. destruct (responding c1); [exact H1|]. destruct a; try discriminate; exact H1. }
-  destruct (responding (requests R a c1) && (pend (requests R a c1) =? 0)%N); [exact H2|].
+  assert (H2 : persisted (requests R a c1) = persisted c) by (rewrite requests_persisted by exact H; exact H1).
+  destruct (responding (requests R a c1) && negb (inprog (requests R a c1)) && (pend (requests R a c1) =? 0)%N); [exact H2|].
   unfold sends. destruct (0 <? N.min cap (pend (requests R a c1)))%N; exact H2.
 Qed.
 Lemma persisted_run R sched : forall c, no_req sched = true -> persisted (run R c sched) = persisted c.
@@ -193,11 +236,11 @@ Theorem closes_blocked T t0 R sched quiet now a cap :
   let c := run R (accept T t0) sched in
   last c + T <= now ->
   closed (pass R (now, a, cap) (run R c quiet)) = true /\
-  (closed (run R c quiet) = false -> last (run R c quiet) = last c /\ pend (run R c quiet) = pend c).
+  (closed (run R c quiet) = false -> last (run R c quiet) = last c).
 Proof.
   intros HT Hn Hb Hw c Hl. split; [|now apply blocked_run].
   destruct (closed (run R c quiet)) eqn:Ec; [now rewrite closed_pass|].
-  destruct (blocked_run R quiet c Hb Ec) as [H1 _].
+  pose proof (blocked_run R quiet c Hb Ec) as H1.
   unfold c in *. rewrite <- run_app in *.
   apply closes; [exact HT| |exact Hw|lia].
   rewrite no_req_app, Hn. now apply blocked_no_req.
@@ -225,9 +268,8 @@ Proof.
   rewrite E.
   set (c1 := if has_traffic a then refresh now c else c).
   assert (H1 : timedout c1 = false) by (unfold c1; destruct (has_traffic a); exact Et).
-  assert (H2 : timedout (requests R a c1) = false).
-  { unfold requests. destruct (responding c1); [exact H1|]. destruct a; exact H1. }
-  destruct (responding (requests R a c1) && (pend (requests R a c1) =? 0)%N); [reflexivity|].
+  assert (H2 : timedout (requests R a c1) = false) by (rewrite requests_timedout; exact H1).
+  destruct (responding (requests R a c1) && negb (inprog (requests R a c1)) && (pend (requests R a c1) =? 0)%N); [reflexivity|].
   unfold sends. destruct (0 <? N.min cap (pend (requests R a c1)))%N; exact H2.
 Qed.
 
@@ -253,9 +295,8 @@ Proof.
   destruct ((0 <? tmo c) && expired now c); [exact H|].
   set (c1 := if has_traffic a then refresh now c else c).
   assert (H1 : tmo c1 <= 0) by (unfold c1; destruct (has_traffic a); exact H).
-  assert (H2 : tmo (requests R a c1) <= 0).
-  { unfold requests. destruct (responding c1); [exact H1|]. destruct a; cbn; try exact H1; lia. }
-  destruct (responding (requests R a c1) && (pend (requests R a c1) =? 0)%N); [exact H2|].
+  assert (H2 : tmo (requests R a c1) <= 0) by (now apply requests_tmo_le).
+  destruct (responding (requests R a c1) && negb (inprog (requests R a c1)) && (pend (requests R a c1) =? 0)%N); [exact H2|].
   unfold sends. destruct (0 <? N.min cap (pend (requests R a c1)))%N; exact H2.
 Qed.
 Lemma timedout_pass_le R p c : tmo c <= 0 -> timedout c = false -> timedout (pass R p c) = false.
@@ -265,9 +306,8 @@ Proof.
   replace (0 <? tmo c) with false by lia. cbn [andb].
   set (c1 := if has_traffic a then refresh now c else c).
   assert (H1 : timedout c1 = false) by (unfold c1; destruct (has_traffic a); exact Et).
-  assert (H2 : timedout (requests R a c1) = false).
-  { unfold requests. destruct (responding c1); [exact H1|]. destruct a; exact H1. }
-  destruct (responding (requests R a c1) && (pend (requests R a c1) =? 0)%N); [reflexivity|].
+  assert (H2 : timedout (requests R a c1) = false) by (rewrite requests_timedout; exact H1).
+  destruct (responding (requests R a c1) && negb (inprog (requests R a c1)) && (pend (requests R a c1) =? 0)%N); [reflexivity|].
   unfold sends. destruct (0 <? N.min cap (pend (requests R a c1)))%N; exact H2.
 Qed.
 Lemma never_gen R sched : forall c,
@@ -346,4 +386,33 @@ Theorem safe_windows T t0 R sched :
   sorted_from t0 sched -> windowed T [t0] sched -> timedout (run R (accept T t0) sched) = false.
 Proof.
   intros S W. apply safe. apply (windowed_busy R T sched (accept T t0) t0 [t0]); auto; cbn; try lia.
+Qed.
+
+(* ---------- expiry does not depend on a response being in progress ---------- *)
+(* the timeout decision of a service pass reads the closed flag, the tymeout and the tymer only:
+   for an open connection whose tymer has expired the pass closes it as timed out, whatever the
+   response state (Responder in progress, empty results still to come, bytes pending) *)
+Theorem expiry_ignores_response R now a cap c b w n :
+  is_wind a = false -> closed c = false -> 0 < tmo c -> sp c <= now ->
+  pass R (now, a, cap) (set_resp b w (set_pend n c)) = close true (set_resp b w (set_pend n c)).
+Proof.
+  intros Hw Ec Ht He. unfold pass. cbn [closed set_resp set_pend tmo]. rewrite Ec, Hw.
+  unfold expired. cbn [sp set_resp set_pend].
+  replace ((0 <? tmo c) && (sp c <=? now)) with true by lia. reflexivity.
+Qed.
+
+(* and a pass that does not close for idleness is not made to do so by the response state either *)
+Theorem no_expiry_ignores_response R now a cap c b w n :
+  closed c = false -> (0 <? tmo c) && expired now c = false ->
+  timedout c = false -> timedout (pass R (now, a, cap) (set_resp b w (set_pend n c))) = false.
+Proof.
+  intros Ec He Et. unfold pass. cbn [closed set_resp set_pend tmo]. rewrite Ec.
+  destruct (is_wind a); [exact Et|].
+  unfold expired in *. cbn [sp set_resp set_pend]. rewrite He.
+  set (c0 := set_resp b w (set_pend n c)).
+  set (c1 := if has_traffic a then refresh now c0 else c0).
+  assert (H1 : timedout c1 = false) by (unfold c1; destruct (has_traffic a); exact Et).
+  assert (H2 : timedout (requests R a c1) = false) by (rewrite requests_timedout; exact H1).
+  destruct (responding (requests R a c1) && negb (inprog (requests R a c1)) && (pend (requests R a c1) =? 0)%N); [reflexivity|].
+  unfold sends. destruct (0 <? N.min cap (pend (requests R a c1)))%N; exact H2.
 Qed.
